@@ -12,7 +12,10 @@ private:
     tribool is_symmetric_;
     const Assumptions *assumptions_;
 
-    void check_vector(const vec_basic &vec)
+    // `sum`: exactly one non-symmetric term makes a sum non-symmetric; two of
+    // them may cancel, and a non-symmetric factor of an elementwise product
+    // decides nothing
+    void check_vector(const vec_basic &vec, bool sum)
     {
         bool found_nonsym = false;
         for (auto &elt : vec) {
@@ -20,7 +23,8 @@ private:
             if (is_indeterminate(is_symmetric_)) {
                 return;
             } else if (is_false(is_symmetric_)) {
-                if (found_nonsym) {
+                if (found_nonsym or not sum) {
+                    is_symmetric_ = tribool::indeterminate;
                     return;
                 } else {
                     found_nonsym = true;
@@ -88,12 +92,12 @@ public:
 
     void bvisit(const MatrixAdd &x)
     {
-        check_vector(x.get_terms());
+        check_vector(x.get_terms(), true);
     }
 
     void bvisit(const HadamardProduct &x)
     {
-        check_vector(x.get_factors());
+        check_vector(x.get_factors(), false);
     }
 
     tribool apply(const MatrixExpr &s)
